@@ -369,6 +369,16 @@ func Now() time.Time {
 	return time.Now()
 }
 
+// Elapsed is the virtual time since the current run started (0 outside a run).
+//
+//go:norace
+func Elapsed() time.Duration {
+	if active.Load() && K != nil {
+		return K.now.Sub(K.start)
+	}
+	return 0
+}
+
 func Since(t time.Time) time.Duration { return Now().Sub(t) }
 func Until(t time.Time) time.Duration { return t.Sub(Now()) }
 
